@@ -79,6 +79,14 @@ func runC07(o opts) error {
 				}
 			}
 		}
+		// ... nor on where the terminal's cursor happens to be when the application starts (the explicit-width
+		// probe judges a cursor report: column 2 after one probed cell must mean the cell was understood,
+		// not that the cursor began in column 2)
+		for _, pos := range [][2]int{{1, 2}, {1, 3}, {2, 2}, {3, 7}, {1, 1}} {
+			for _, m := range []int{0, 1 << 14, full, full &^ (1 << 14), rng.Intn(1 << 15), 1<<14 | rng.Intn(1<<14)} {
+				scns = append(scns, c07.CursorSession(m, m%2 == 1, pos[1]+m%5, pos[0], pos[1]))
+			}
+		}
 		// ... nor on the letter case of the hexadecimal strings in the XTGETTCAP / tertiary-DA replies
 		for _, hc := range []int{1, 2} {
 			for _, alt := range []bool{false, true} {
